@@ -176,6 +176,10 @@ func rebootIncompleteBlobSize(key string, pather *pather) (size uint64, ok bool,
 	if err != nil {
 		return 0, false, fmt.Errorf("read blob size sidecar file: %w", err)
 	}
+	if len(blobSizeData) == 0 {
+		// The process died after creating the sidecar file but before writing the size: same as no sidecar at all.
+		return 0, false, nil
+	}
 	blobSize, err := strconv.Atoi(string(blobSizeData))
 	if err != nil {
 		return 0, false, fmt.Errorf("blob size sidecar file is in unexpected format: %w", err)
